@@ -13,6 +13,9 @@ its own arguments: data (N rows incl. N = 0, container form), pos/neg batch size
 CallbackList / iterator; a later call may pass the very same container object again), time, scheduler, starting_epoch/epochs,
 stop injections, and what the caller does to the flag before it (nothing / `stop_training = True` / `= False`).
 A second stream exercises the LambdaCallback constructor (arity by `inspect.signature`, non-callables, None).
+Extension round 2: `asg` cases (callbacks assigning every kind of value to `stop_training` at every event, caught or not; model QV.Train.fitAsg /
+setStop; the call after an escaped exception; the Timer differential) and `cbl` cases (random operation sequences on a real CallbackList; model
+QV.Train.cbRunOps) -- verdicts by effect; which objects / operations are refused and with which exception is only counted.
 
 Argument forms (round 5): every integer option of `fit` (epochs, pos_batch_size, neg_batch_size, k, starting_epoch) and of the state
 constructors (num_visible, num_hidden, num_aux) is handed over in a form drawn from the case's `qc.Ints(iseed)` stream (Python int,
@@ -66,11 +69,17 @@ RULE = ("case = session on one state object (kind) of 1..3 consecutive fit calls
         "bool / int / np.bool_ / numpy comparison result / 0-d ndarray / 0-d tensor (`fseed`); the first npos in 1..15 arguments of fit positional; "
         "in a third of the cases every keyword whose value is the documented default is OMITTED; a counted-only stream of calls that raise inside "
         "fit (no reference-basis row / no rows with neg != pos: outside the property, no verdict); "
+        "extension round 2: `asg` cases = one fit call whose callbacks ASSIGN to stop_training one of 12 values (Python bool / numpy.bool_ incl. a numpy "
+        "comparison result / int 0,1,2 / 0-d tensor / None / str, each truthy or falsy) at 1..3 points drawn from all events of the run, inside a try or not "
+        "(falsy values only in runs without any other request), optionally a stop raised during a batch; after an escaped exception a second call on the same "
+        "object; the same case again on a fresh object with `time` flipped; `cbl` cases = 2..7 random container operations (__setitem__, __delitem__, insert, "
+        "append, + on either side; indices -n-3..n+3; 22% non-callbacks of six kinds) on a real CallbackList, then cl[k], len and a fit given the container; "
         "non-trivial iff some call begins at least one epoch and (a stop is injected or there are >= 2 batches or >= 2 callbacks), or a "
         "constructor case with >= 1 non-None argument; distinct by hash of the case")
 EXTRA_TRUSTED = [
-    "C12: user callbacks are modelled only through the stop requests they make (Req); exceptions raised by callbacks, "
-    "progress bars and GPU paths are not modelled; `_shuffle_data` is assumed to succeed (its error cases belong to C07)",
+    "C12: user callbacks are modelled only through the stop requests they make (Req) and the assignments to stop_training they attempt (Asg: the "
+    "setter's refusal and the exception escaping from fit are modelled, C12_exception_trace); other exceptions raised by callbacks, clearing the flag "
+    "in mid-run, progress bars and GPU paths are not modelled; `_shuffle_data` is assumed to succeed (its error cases belong to C07)",
 ]
 
 KINDS = ("pos", "cplx", "dens")
@@ -525,7 +534,7 @@ def one_call(ctx, case, kind, st, data_bases, hold, objs, run, r_idx, sess, m, s
             refused_ok = refused_ok and bool(same)
         ctx.oracle("an assignment to stop_training that raises leaves the flag (public property) unchanged", bool(refused_ok), ctx.current_case,
                    detail=first_bad, sig=f"{kind}/refused-stop-request",
-                   theorem="(oracle only: the setter is not modelled; C12_sticky / C12_session_stopped take the flag at entry as given)")
+                   theorem="C12_refused_request_leaves_flag (which objects are refused is not judged; C12_sticky / C12_session_stopped take the flag at entry as given)")
     # ---- the option objects of this call
     fl, it = sess.get("fl") or qc.Flags(None), sess.get("it") or qc.Ints(None)
     fam = int_family(getattr(it, "iseed", None))
@@ -1432,6 +1441,10 @@ def cbl_case(ctx, case):
             gets.append(ident_of.get(id(cl[k]), "foreign"))
         except Exception:  # noqa: BLE001
             gets.append("refused")
+    ref_gets = [final_ids[k] if -len(final_ids) <= k < len(final_ids) else "refused" for k in a["gets"]]
+    ctx.oracle("cl[k] reads position k of list(cl) (negative k from the end; outside the range refused), len(cl) == len(list(cl))",
+               gets == ref_gets and len(cl) == len(final_ids), case, detail={"contents": final_ids, "k": a["gets"], "cl[k]": gets, "len": len(cl)},
+               sig=f"{sig}/getitem-consistent", theorem="C12_container_ops")
     # ---- a fit given the container: dispatch order == contents, whatever the history of the container
     err = simple_fit(st, rec, data, bases, a, cl)
     nb = -(-a["N"] // a["B"])
